@@ -415,6 +415,9 @@ func Execute(p *Program, opt *Options) *Outcome {
 					for _, v := range r.Viol {
 						add(VInput, v)
 					}
+					for _, v := range r.Incons {
+						add(VNondet, v)
+					}
 					if r.Budget {
 						add(VBudget, fmt.Sprintf("operation still running after %d statements", opt.Budget))
 					} else if r.HasPanic && (def.PanicOK == nil || !def.PanicOK(x, op, r)) {
